@@ -1,8 +1,8 @@
 SPECIFICATION Spec
 CONSTANTS
   Lits = {"a"}
-  D = 4
-  R = 5
+  D = 3
+  R = 4
   ReqAlpha = {"a", "z", ""}
   MaxSet = 3
   Guard = TRUE
